@@ -667,12 +667,24 @@ void World::syncClock()
 void World::deriveFromComparisons(const InFlight& f, const std::vector<cmpfb::Operand>& ops)
 {
     const Bytes& in = f.bytes;
-    int made = 0;
+    int made = 0, madeVar = 0;
+    // constants first, then relations between two variables (at most three of those per delivery)
+    std::vector<cmpfb::Operand> ordered;
     for (auto& o : ops)
+        if (!o.variable)
+            ordered.push_back(o);
+    for (auto& o : ops)
+        if (o.variable)
+            ordered.push_back(o);
+    for (auto& o : ordered)
     {
         if (derivedLeft <= 0 || made >= 10)
             break;
-        if (o.observed == in.size() && o.constant >= 8 && o.constant <= 70000 && o.width >= 4)
+        if (o.variable && (madeVar >= 3 || o.width == 1))
+            continue;
+        if (o.variable)
+            ++madeVar;
+        if (!o.variable && o.observed == in.size() && o.constant >= 8 && o.constant <= 70000 && o.width >= 4)
         {
             // the buffer SIZE was compared with a constant: the same frame cut, or zero-padded, to exactly that size
             InFlight* d = new InFlight();
